@@ -193,8 +193,40 @@ def r20_2(ctx):
     v = repo.func(f"{DOC}:ConfigTargetVisibility._visible")
     construct = "ConfigTargetVisibility._visible/a node is hidden only by its own folded dependency or a hidden parent"
     src = ast.unparse(v.node)
-    ok = "self._visible(node.parent) if node.parent else (True, None)" in src and "invert_first_arg(self._implies_invisibility(dependencies))" in src
-    (ctx.ok(construct, v.loc(), nontrivial=False) if ok else ctx.bad(construct, "visibility recursion changed", v.loc()))
+    parent_ok = "self._visible(node.parent) if node.parent else (True, None)" in src
+    calls = [n for n in ast.walk(v.node) if isinstance(n, ast.Call) and ast.unparse(n.func) == "self._implies_invisibility"]
+    if not calls:
+        ctx.bad(construct, "the node's own dependency is no longer consulted (_implies_invisibility is not called)", v.loc())
+    else:
+        c0 = calls[0]
+        par = repo.parent(c0)
+        negated = None
+        # (a) wrapped by a helper that returns (not t[0], t[1])
+        if isinstance(par, ast.Call) and isinstance(par.func, ast.Name):
+            h = [x for x in ast.walk(v.node) if isinstance(x, ast.FunctionDef) and x.name == par.func.id]
+            if h and any(isinstance(r_, ast.Return) and isinstance(r_.value, ast.Tuple) and ast.unparse(r_.value.elts[0]).startswith("not ")
+                         for r_ in ast.walk(h[0])):
+                negated = True
+        # (b) unpacked, first component negated into the visibility
+        if negated is None and isinstance(par, ast.Assign) and isinstance(par.targets[0], ast.Tuple) and isinstance(par.targets[0].elts[0], ast.Name):
+            first = par.targets[0].elts[0].id
+            negs = [a for a in ast.walk(v.node) if isinstance(a, ast.Assign) and ast.unparse(a.value) == f"not {first}"]
+            rets = {ast.unparse(x) for r_ in ast.walk(v.node) if isinstance(r_, ast.Return) and r_.value is not None for x in ast.walk(r_.value)
+                    if isinstance(x, ast.Name)}
+            if negs:
+                negated = True
+            elif first in rets or any(isinstance(a, ast.Assign) and isinstance(a.value, ast.Tuple) and first in {ast.unparse(e) for e in a.value.elts}
+                                      for a in ast.walk(v.node)):
+                negated = False
+        if negated is None:
+            raise AnalysisError("_visible: how the verdict of _implies_invisibility reaches the result is not recognised")
+        gs = Flow(v.node).run().guards_at(c0) or set()
+        if not parent_ok:
+            ctx.bad(construct, "the parent's visibility is no longer consulted first", v.loc())
+        elif not negated:
+            ctx.bad(construct, "`implies invisibility` is used as the visibility without being negated", v.loc(c0))
+        else:
+            ctx.ok(construct, v.loc(c0), guards=sorted(map(str, gs)))
 
 
 SOURCES = ("item.defaults", "item.rev_dep", "item.weak_rev_dep", "item.rev_values", "item.weak_rev_values")
